@@ -598,7 +598,12 @@ func ruleC07CauseFlow(cx *Ctx) {
 				for _, op := range in.Operands(ops) {
 					if c, ok := (*op).(*ssa.Const); ok && c.Value != nil && types_Identical(c.Type(), of.Type()) && c.Value.ExactString() == of.Val().ExactString() {
 						name := funcName(outermost(fn))
-						cx.R.Check(name == "(*cache).evictNode" || strings.HasPrefix(name, "DeletionCause") || strings.HasPrefix(name, "(DeletionCause)"), rule, funcName(fn), "Overflow constant", cx.P.where(in), "CauseOverflow originates only in the eviction callback")
+						inEvict := name == "(*cache).evictNode"
+						if en := cx.P.Func("", "cache", "evictNode"); en != nil && !inEvict {
+							// a helper that only the eviction callback uses (the cause decision split off)
+							inEvict = onlyWithin(cx, outermost(fn), en, 0)
+						}
+						cx.R.Check(inEvict || strings.HasPrefix(name, "DeletionCause") || strings.HasPrefix(name, "(DeletionCause)"), rule, funcName(fn), "Overflow constant", cx.P.where(in), "CauseOverflow originates only in the eviction callback")
 					}
 				}
 			})
